@@ -118,7 +118,10 @@ def edit(rng, svcs, rules):
 
 
 DIRECTED = ["crit-add-then-change", "rule-add-then-change", "svc-add-then-change", "svc-remove-then-add", "svc-remove-all-then-add", "svc-change-and-back", "svc-readd-same", "rule-rename-and-back", "rule-remove-then-add",
-            "crit-remove-then-add", "svc-swap-names", "svc-recase-xreply", "rule-recase-and-back"]
+            "crit-remove-then-add", "svc-swap-names", "svc-recase-xreply", "rule-recase-and-back", "same-size-edit", "same-address-across-reload"]
+
+SAME_SIZE = {"class": [("aaaa", "bbbb"), ("users", "opers")], "address": [("10.1.2.0/24", "10.1.3.0/24"), ("10.1.*", "10.2.*"), ("2001:db8::/32", "2001:db9::/32")],
+             "account": [("alice", "bobby"), ("al*", "bo*")], "hostname": [("*.net", "*.org"), ("host?.net", "host?.org")], "username": [("joe", "jae"), ("~*", "j*")]}
 
 
 def directed_chain(rng, kind, svcs, rules):
@@ -155,6 +158,18 @@ def directed_chain(rng, kind, svcs, rules):
         a2 = recase(rng, a)
         a3 = recase(rng, a2)
         return [([(a, pl), (b, pb)], rr, []), ([(a2, pl), (b, pb)], rr, [kind]), ([(a3, pl), (b, pb)], rr, [kind])]
+    if kind in ("same-size-edit", "same-address-across-reload"):
+        # edits that leave the file's length unchanged (the file is overwritten in place by every second reload, within the same
+        # second): one setting of the first rule flips between two values of equal length, and a service swaps protocol names of equal length
+        key = "address" if kind == "same-address-across-reload" else rng.choice(sorted(SAME_SIZE))
+        x, y = rng.choice(SAME_SIZE[key])
+        base = copy.deepcopy(r0)
+        base[0][key] = x
+        if key != "class":
+            base[0]["class"] = "flip"
+        r1 = copy.deepcopy(base)
+        r1[0][key] = y
+        return [([(a, pa), (b, pb)], base, []), ([(a, pa), (b, pb)], r1, [kind]), ([(a, pa), (b, pb)], copy.deepcopy(base), [kind])]
     sv = [(a, pa), (b, pb)]
     if kind == "rule-recase-and-back":
         r1 = copy.deepcopy(r0)
@@ -255,7 +270,7 @@ def _worker(a):
     cfgs = [proto.Config(sv, timeout=3600, rules=ru, use_class=True) for sv, ru, k in chain]
     probe_seed = rng.randrange(1 << 30)
     nprobes = a["nprobes"]
-    res = {"viol": [], "stats": {"config_pairs": 1, "reloads": 0, "probe_steps_compared": 0, "edits": {}, "probes": 0}, "inconc": [],
+    res = {"viol": [], "stats": {"config_pairs": 1, "reloads": 0, "probe_steps_compared": 0, "edits": {}, "probes": 0, "same_address_straddles_reload": 0}, "inconc": [],
            "hash": vcommon.h([seed]), "nontrivial": any(k for _, _, k in chain[1:])}
     for _, _, kinds in chain[1:]:
         for k in kinds:
@@ -278,7 +293,13 @@ def _worker(a):
                 sa.do({"t": "hurry", "id": cid})
                 if cid in sa.open:
                     sa.do({"t": "disconnect", "id": cid})
+        # the first probe after the last reload comes from the address the last client before it came from (a per-address
+        # cache that survives the reload would serve it the old answer)
+        first_ip = random.Random(probe_seed).choice(c11.IPS)
         for step in range(1, len(cfgs)):
+            if step == len(cfgs) - 1 and (a.get("directed") == "same-address-across-reload" or seed % 3 == 0):
+                c11.probe(sa, pre, 990, None, ip=first_ip)
+                res["stats"]["same_address_straddles_reload"] = 1
             sa.d.reload(cfgs[step].text(b["moddir"]))
             res["stats"]["reloads"] += 1
             if step < len(cfgs) - 1:
